@@ -66,9 +66,20 @@ class Terms(object):
             i = v.inst
             t = self.memo.get(i.id)
             if t is None:
-                self.memo[i.id] = ('op', i.op, i.id)  # cycle guard
-                t = self._inst(i)
-                self.memo[i.id] = t
+                if i.op == 'phi':
+                    # cycle guard: a loop-carried phi stands for itself while its inputs are being normalised
+                    self.memo[i.id] = ('phi', i.id)
+                    before = set(self.memo)
+                    t = self._inst(i)
+                    if t != ('phi', i.id):
+                        # the phi collapsed to a single value: terms normalised meanwhile mention the placeholder; redo them lazily
+                        for k2 in set(self.memo) - before:
+                            del self.memo[k2]
+                    self.memo[i.id] = t
+                else:
+                    self.memo[i.id] = ('op', i.op, i.id)  # cycle guard
+                    t = self._inst(i)
+                    self.memo[i.id] = t
             return t
         if k == 'c':
             return ('const', v.v)
